@@ -75,12 +75,23 @@ def from_generator(draw):
                 tb=draw(boards.PROBS), rb=draw(boards.PROBS), lb=draw(boards.PROBS))
 
 
+def wide_tall():
+    """Shapes around typical tuning knobs (8, 12, 16, 32, 64 per row / column), from the random generator."""
+    shapes = [(1, 9), (9, 1), (1, 13), (13, 1), (2, 17), (17, 2), (1, 33), (33, 1), (1, 65), (65, 1), (9, 9), (3, 12),
+              (12, 3), (11, 7)]
+    for k, (length, width) in enumerate(shapes):
+        for fd in (False, True):
+            yield dict(gen=[100 + k, length, width, 0.3, 6, fd], tb=0.1, rb=0.2, lb=0.3)
+
+
 def phases(tier):
     if tier == "quick":
         return [Phase("boards<=3-tiles", enum=core(3), exhaustive=True, note="all boards with at most 3 tiles"),
+                Phase("wide-and-tall-boards", enum=wide_tall),
                 Phase("sampled-boards", strategy=lambda: sampled(5), examples=(260, 0)),
                 Phase("generator-boards", strategy=from_generator, examples=(60, 0))]
     return [Phase("boards<=4-tiles", enum=core(4), exhaustive=True, note="all 13 448 boards with at most 4 tiles"),
+            Phase("wide-and-tall-boards", enum=wide_tall),
             Phase("sampled-boards", strategy=lambda: sampled(6), examples=(0, 5000)),
             Phase("generator-boards", strategy=from_generator, examples=(0, 1500))]
 
